@@ -28,3 +28,13 @@ out = p.stdout + p.stderr
 lines = [l for l in out.split('\n')]
 print('\n'.join(lines[-int(os.environ.get('TAIL', '120')):]))
 print('rc', p.returncode, '%.1fs' % (time.time() - t0), 'merged items:', [i['path'] for i in u.items if i['status'] != 'identical'][:10])
+if os.environ.get('SLOW'):
+    import json
+    p = subprocess.run(['verus', path, '--triggers-mode', 'silent', '--rlimit', str(rl), '--output-json', '--time-expanded'], capture_output=True, text=True, cwd='/var/tmp/vxdev')
+    j = json.loads(p.stdout)
+    fs = []
+    for m in j['times-ms']['smt']['smt-run-module-times']:
+        for f in m['function-breakdown']:
+            fs.append((f['time-micros'] // 1000, f['function'], f['success']))
+    fs.sort(reverse=True)
+    for t, f, ok in fs[:12]: print(t, 'ms', f, ok)
